@@ -153,8 +153,8 @@ def run_smtp_case(case):
             for k, p in enumerate(peers):
                 pass
             for (k, m, stage, outc) in slices:
-                if outc == '2xx':
-                    continue
+                if outc == '2xx' or (len(outc) == 3 and outc.isdigit() and outc[0] == '2'):
+                    continue            # positive completion (250, or 251 / 252 for a recipient)
                 if stage in ('RSET', 'QUIT'):
                     continue
                 cls_ = 'perm' if outc[:1] == '5' else 'temp'
@@ -256,6 +256,18 @@ def smtp_table():
                         script['DATA'] = data
                         yield {'kind': kind, 'pipelining': pipelining, 'nrcpt': n, 'scripts': [script]}
             yield {'kind': kind, 'pipelining': pipelining, 'nrcpt': 2, 'scripts': [{'EHLO': '500'}]}
+            # a recipient accepted with another positive code than 250 ("251 user not local; will forward")
+            for n in (1, 2, 3):
+                for i in range(n):
+                    for code in ('251', '252'):
+                        yield {'kind': kind, 'pipelining': pipelining, 'nrcpt': n, 'scripts': [{'RCPT%d' % i: code}]}
+                        yield {'kind': kind, 'pipelining': pipelining, 'nrcpt': n, 'reuse': True, 'scripts': [{'m0:RCPT%d' % i: code}, {}]}
+                        for j in range(n):
+                            for outc in ('4xx', '5xx'):
+                                eod = 'EOD%d' % j if kind == 'lmtp' else 'EOD'
+                                yield {'kind': kind, 'pipelining': pipelining, 'nrcpt': n, 'scripts': [{'RCPT%d' % i: code, eod: outc}]}
+                                yield {'kind': kind, 'pipelining': pipelining, 'nrcpt': n, 'reuse': True,
+                                       'scripts': [{'m0:RCPT%d' % i: code, 'm0:' + eod: outc}, {}]}
 
 
 @st.composite
@@ -445,7 +457,7 @@ def replay(case):
         case['nrcpt'] = max(1, min(3, int(n))) if not isinstance(n, list) else [max(1, min(3, int(x))) for x in n]
         scripts = []
         for s in case['scripts']:
-            scripts.append(dict((k, v) for k, v in (s or {}).items() if v in OUTCOMES + ['500', '2xx']))
+            scripts.append(dict((k, v) for k, v in (s or {}).items() if v in OUTCOMES + ['500', '2xx', '251', '252']))
         case['scripts'] = scripts or [{}]
         f, _ = run_smtp_case(case)
         return f
